@@ -302,6 +302,23 @@ let () =
         let t = spec_rej_tokens_ln fuel prog (n_of_int (ai sc)) pol (ab bol) w in
         Printf.printf "rejtokens_ln %s\n"
           (String.concat " " (List.map (fun ((r, h), l) -> Printf.sprintf "%d:%d:%d" (int_of_n r) (int_of_nat h) (int_of_nat l)) t))
+      | L [A "eolcheck"; L flags] ->
+        (* flags: yy_rule_can_match_eol[1 .. number of rules + 1] (the last one belongs to the default rule) *)
+        let fl = List.map (fun v -> ai v <> 0) flags in
+        let nr = List.length prog.p_rules in
+        let user = List.filteri (fun i _ -> i < nr) fl in
+        let ok = eol_ok prog.p_csize prog.p_rules user in
+        let missing = List.concat (List.mapi (fun i r ->
+            if can_nl (head_re prog.p_csize r) && not (try List.nth fl i with _ -> false) then [string_of_int (i + 1)] else []) prog.p_rules) in
+        let dflt = (try List.nth fl nr with _ -> false) in
+        let wit = List.concat (List.mapi (fun i r ->
+            if can_nl (head_re prog.p_csize r) && not (try List.nth fl i with _ -> false) then
+              (match nl_word (head_re prog.p_csize r) with
+               | Some w -> [Printf.sprintf "%d=%s" (i + 1) (String.concat "." (List.map (fun x -> string_of_int (int_of_n x)) w))]
+               | None -> [])
+            else []) prog.p_rules) in
+        Printf.printf "eolcheck %s default=%b missing=[%s] witnesses=[%s]\n" (if ok && dflt then "OK" else "FAIL") dflt
+          (String.concat "," missing) (String.concat "," wit)
       | L [A "unputrun"; size; nch; cp; inp; cs] ->
         (* the buffer after the first refill: the file's bytes, the two end-of-buffer bytes, the rest of the array *)
         let size = ai size and nch = ai nch and cp = ai cp in
